@@ -128,6 +128,8 @@ Definition canon_integer (s : ustr) : cres :=
       let m := digits_val (f_int f ++ f_frac f) in
       let k := N.of_nat (length (f_frac f)) in      (* value = m * 10^(+-ev) / 10^k *)
       let '(a, b) := if f_eneg f then (m, pow10 (k + ev)) else (m * pow10 ev, pow10 k) in
+      (* beyond the largest binary64 (plus half an ulp) float() gives inf and the cast to int raises *)
+      if (2 ^ 1024 - 2 ^ 970) * b <=? a then CErr else
       COk (dec_of_Z (int64_wrap (f_neg f) (trunc_round64 a b)))
   end.
 
